@@ -4,7 +4,7 @@ use super::*;
 /// (theme, is a known-finding region).  A case is generated from exactly one theme; its tags are the theme name plus
 /// measurement tags.  Themes marked `true` are the regions of `known_findings.d/C16.json`; the generator gives them
 /// at most 30 % of the cases.
-pub const THEMES: [(&str, bool); 34] = [
+pub const THEMES: [(&str, bool); 35] = [
     ("valid", false),
     ("random_chars", false),
     ("lossy_bytes", false),
@@ -26,6 +26,7 @@ pub const THEMES: [(&str, bool); 34] = [
     ("sess_dml", false),
     ("q_between_in", false),
     ("q_like", false),
+    ("q_like_escape", false),
     ("q_func", false),
     ("q_nullif", false),
     ("q_agg", false),
@@ -500,6 +501,30 @@ fn themed_q(theme: &str, r: &mut Rng, s: &[Table], tags: &mut Vec<String>) -> Q 
                 1 => { tag("like_null"); sel(t, vec![E::Bin("like", b(E::Col(c.0.clone())), b(E::Null))], None) }
                 2 => { tag("like_int"); sel(t, vec![E::Bin("like", b(E::Col(c.0.clone())), b(E::Int(1)))], None) }
                 _ => { tag("like_item"); sel(t, vec![E::Bin("like", b(E::Null), b(E::Str(pat)))], None) }
+            }
+        }
+        "q_like_escape" => {
+            // the pattern shapes of C05's LIKE family (wildcards, escapes — often after a wildcard —, subjects that match or
+            // nearly match): a matcher that loses track while backtracking answers wrongly (C05) or never returns, which
+            // the pool's time-out reports as `hang`
+            use crate::engines::sql::{like_pattern, like_pattern_bytes, like_subject, like_subject_for, like_tags};
+            let items = like_pattern(r);
+            let trailing = r.chance(1, 15);
+            for x in like_tags(&items, trailing) {
+                tag(x);
+            }
+            let subject = match (r.below(3), col_of(r, t, &['t'])) {
+                (0, Some(c)) => E::Col(c.0.clone()),
+                (1, _) => E::Str(like_subject(r)),
+                _ => E::Str(like_subject_for(r, &items, trailing)),
+            };
+            let e = E::Bin(["like", "nlike"][r.below(2) as usize], b(subject), b(E::Str(like_pattern_bytes(&items, trailing))));
+            match r.below(6) {
+                0 | 1 => { tag("like_where"); sel(t, vec![E::Col(anyc.0.clone())], Some(e)) }
+                2 => { tag("like_item"); sel(t, vec![e], None) }
+                3 => { tag("like_case"); sel(t, vec![E::Case(vec![(e, lit_e(r, 'i'))], if r.chance(1, 2) { Some(b(lit_e(r, 'i'))) } else { None })], None) }
+                4 => { tag("like_delete"); Q::Del { tbl: t.name.clone(), wh: Some(e) } }
+                _ => { tag("like_update"); Q::Upd { tbl: t.name.clone(), col: anyc.0.clone(), val: lit_e(r, anyc.1), wh: Some(e) } }
             }
         }
         "q_func" | "q_nullif" => {
